@@ -289,3 +289,67 @@ func c20Check(t *jet.Template) {
 		}
 	}
 }
+
+// H_C20_deep: trees far deeper and wider than the fragments': a sum / a logical chain of N
+// operands (left-nested N deep), N nested if / range / block bodies, N nested parentheses
+// and index expressions, a pipeline of N stages and a list of N sibling actions, for N up
+// to 150 (300 in the thorough tier): every node is still visited, once, in tree order.
+//
+//gosym:reach walked
+func H_C20_deep() {
+	ns := []int{3, 99, 100, 101, 150}
+	if vfTier() == 1 {
+		ns = append(ns, 300)
+	}
+	n := ns[ndChoice("n", len(ns))]
+	shape := ndChoice("shape", 8)
+	rep := func(s string, k int) string {
+		out := ""
+		for i := 0; i < k; i++ {
+			out += s
+		}
+		return out
+	}
+	var src string
+	switch shape {
+	case 0:
+		src = `{{ a0` + rep(` + b`, n) + ` }}`
+	case 1:
+		src = `{{ a0` + rep(` && b`, n) + ` }}`
+	case 2:
+		src = rep(`{{ if c }}x`, n) + `{{ leaf }}` + rep(`{{ end }}`, n)
+	case 3:
+		src = rep(`{{ range r }}`, n) + `{{ leaf }}` + rep(`{{ end }}`, n)
+	case 4:
+		src = `{{ ` + rep(`(`, n) + `leaf` + rep(`)`, n) + ` }}`
+	case 5:
+		src = `{{ leaf` + rep(`[i]`, n) + ` }}`
+	case 6:
+		src = `{{ leaf` + rep(` | f`, n) + ` }}`
+	default:
+		src = rep(`{{ s }}t`, n)
+	}
+	l := jet.NewInMemLoader()
+	set := jet.NewSet(l)
+	t, err := set.Parse("/t.jet", src)
+	vfAssert(err == nil, "parses")
+	if err != nil {
+		return
+	}
+	v := &c20Visitor{budget: 20*n + 100}
+	Walk(t, v)
+	vfReach("walked")
+	var want []jet.Node
+	c20All(t.Root, &want)
+	vfAssert(v.nils == 0, "the visitor is never handed a nil node")
+	vfAssert(len(v.seen) == len(want), "every node is visited exactly once")
+	if len(v.seen) == len(want) {
+		same := true
+		for i := range want {
+			if v.seen[i] != want[i] {
+				same = false
+			}
+		}
+		vfAssert(same, "nodes are visited in tree order")
+	}
+}
